@@ -32,7 +32,7 @@ FirstRaise == LET S == {k \in 1..Len(cfg.body) : cfg.body[k].k \in {"raise", "in
 
 TNew == /\ l = 1 /\ Is("new") /\ Adv
         /\ UNCHANGED <<vars, oterm, oclock, sync>>
-        /\ Check(tid, l, "H.cfg", "", /\ cfg.end # <<>> /\ Len(cfg.values) >= 2
+        /\ Check(tid, l, "H.cfg", "", /\ Len(cfg.values) >= 2
                                       /\ \A m \in Msgs : \A k \in 1..Len(m) : m[k] \notin {cfg.values[j] : j \in 1..Len(cfg.values)} \cup {" "}
                                       /\ \A m \in Msgs : Len(m) + 3 < cfg.w
                                       /\ cfg.mode \in {"ansi", "plain", "quiet"})
